@@ -323,7 +323,7 @@ def ast_hash(node):
 
 
 MODULE_GLOBALS = {'math': SModule('math'), 'sle': SModule('sle'), 'tt': SModule('tt'), 'np': SModule('np'), 'linalg': SModule('linalg'), 'lin': SModule('lin'), 'utl': SModule('utl'),
-                  '_time': SModule('_time'), 'TT': ('TTclass',), 'sp': SModule('sp')}
+                  '_time': SModule('_time'), 'TT': ('TTclass',), 'sp': SModule('sp'), 'splin': SModule('splin')}
 
 
 INSTANCE_BUDGET_S = float(os.environ.get('VERIF_E1_INSTANCE_BUDGET_S', '240'))
@@ -367,7 +367,7 @@ def check_obligation(ctx, ob):
         plan = [(2000, False, 0), (2000, True, 0)]
     elif ob.expect == 'sat':
         # model search: hopeless with the heap axioms in the path condition (goes straight to the weaker vacuity guard)
-        plan = [(first, False, 0), (first, True, 0), (3 * first, False, 0)] if not getattr(ctx.contract, 'uses_heap', False) else [(3000, False, 0)]
+        plan = [(first, False, 0), (first, True, 0), (3 * first, False, 0)] if not getattr(ctx, 'uses_heap', False) else [(3000, False, 0)]
     else:
         plan = [(2000, False, 0), (2000, True, 0), (4000, True, 7), (first, False, 0), (first, True, 3), (3 * first, False, 11)]
     total, r, s = 0.0, 'unknown', None
@@ -400,7 +400,9 @@ def verify_function(contract, inst, registry):
             except KeyError:
                 c.param_names = []
     ctx = Ctx(contract, inst, registry, contract.name)
-    if getattr(contract, 'uses_heap', False):
+    uh = getattr(contract, 'uses_heap', False)
+    ctx.uses_heap = bool(uh(inst) if callable(uh) else uh)
+    if ctx.uses_heap:
         ctx.axioms += heap.axioms()
     loops = [n for n in ast.walk(node) if isinstance(n, (ast.For, ast.While))]
     loops.sort(key=lambda n: (n.lineno, n.col_offset))
@@ -485,6 +487,9 @@ def verify_function(contract, inst, registry):
                 ob = Obligation('canary#%d' % n_ret, 'canary', 0, st.pc, can, expect='sat')
                 ctx.obls.append(ob)
         res['returns'] = n_ret
+        if not outs:
+            res['unsupported'] = 'no feasible path reaches a return or raise statement (contradictory contract or path condition): nothing would be proved'
+            return res
     except Unsupported as e:
         res['unsupported'] = str(e)
         return res
@@ -531,7 +536,7 @@ def verify_function(contract, inst, registry):
     if not ctx.muted:
         for rec in ctx.reach:
             t1 = time.time()
-            if getattr(contract, 'uses_heap', False):
+            if ctx.uses_heap:
                 # no model can be built with the heap axioms in the path condition: only look for a contradiction
                 ends = [_sat(ctx, pc, 2500) for pc in rec['ends'][:4]]
                 if ends and all(e == 'unsat' for e in ends) and len(rec['ends']) <= 4 and _sat(ctx, rec['start'], 2500) != 'unsat':
